@@ -199,7 +199,7 @@ func keyOr(k string) string {
 	return "nokey"
 }
 
-// directedEdit applies edit number e to the single constraint of the directed base rule.
+// directedEdit applies edit number e to the directed base rule: exactly one visible field changes.
 func directedEdit(e int, r *placement.Rule) string {
 	c := &r.LabelConstraints[0]
 	switch e {
@@ -212,24 +212,55 @@ func directedEdit(e int, r *placement.Rule) string {
 	case 2:
 		c.Op, c.Values = placement.In, []string{"z2"}
 		return "Op = in, Values = [z2]"
-	default:
+	case 4:
 		c.Values = append(c.Values, "z2")
 		return "Values append z2"
+	case 5:
+		r.Count = 1
+		return "Count = 1"
+	case 6:
+		r.Count = 3
+		return "Count = 3"
+	case 7:
+		r.Role = placement.Follower
+		return "Role = follower"
+	case 8:
+		r.Role = placement.Learner
+		return "Role = learner"
+	case 9:
+		r.LocationLabels[0] = "host"
+		return "LocationLabels[0] = host (in place)"
+	case 10:
+		r.LocationLabels = []string{"zone", "host"}
+		return "LocationLabels = [zone host] (new slice)"
+	case 11:
+		r.LocationLabels = nil
+		return "LocationLabels = nil"
+	case 12:
+		c.Key = "host"
+		return "constraint Key = host"
+	case 13:
+		c.Op = placement.NotIn
+		return "constraint Op = notIn"
+	case 14:
+		r.LabelConstraints = nil
+		return "LabelConstraints = nil"
+	default:
+		r.LabelConstraints = append(r.LabelConstraints, placement.LabelConstraint{Key: "host", Op: placement.In, Values: []string{"h1"}})
+		return "append constraint host in [h1]"
 	}
 }
 
-// directedCases: three plain stores (one per zone), one peer on each, a single voter rule whose only
-// constraint is about the zone; every fetch method x edit kind x persistence path.
+// directedCases: five stores, four peers (one learner), a single voter rule with one zone
+// constraint and a location label; every fetch method x single-field edit x persistence path.
 func directedCases() []job {
 	var out []job
-	stores := []StoreSpec{plainStore(1, "z1", "h1"), plainStore(2, "z2", "h1"), plainStore(3, "z3", "h1")}
-	peers := []PeerSpec{{ID: 11, Store: 1}, {ID: 12, Store: 2}, {ID: 13, Store: 3}}
-	bases := []ConsSpec{
-		{Key: "zone", Op: "in", Values: []string{"z1"}},
-		{Key: "zone", Op: "in", Values: []string{"z1"}},
-		{Key: "zone", Op: "exists"},
-		{Key: "zone", Op: "notIn", Values: []string{"z1"}},
-		{Key: "zone", Op: "in", Values: []string{"z1"}},
+	stores := []StoreSpec{plainStore(1, "z1", "h1"), plainStore(2, "z2", "h1"), plainStore(3, "z3", "h1"), plainStore(4, "z1", "h2"), plainStore(5, "z2", "h2")}
+	peers := []PeerSpec{{ID: 11, Store: 1}, {ID: 12, Store: 2}, {ID: 13, Store: 3}, {ID: 14, Store: 4, Learner: true}}
+	zin := ConsSpec{Key: "zone", Op: "in", Values: []string{"z1"}}
+	bases := []ConsSpec{zin, zin, {Key: "zone", Op: "exists"}, {Key: "zone", Op: "notIn", Values: []string{"z1"}}}
+	for len(bases) < 16 {
+		bases = append(bases, zin)
 	}
 	idx := 0
 	for e, b := range bases {
